@@ -78,9 +78,10 @@ func TestVerifC01Build(t *testing.T) {
 			rev  uint64
 		}
 		var wants []want
-		sameBlock := false                             // some relevant v2 contract is revised and resolved by this update
-		sameBlockV1 := map[types.FileContractID]bool{} // relevant v1 contracts revised and proven by this update
-		foldedV1 := map[types.FileContractID]bool{}    // relevant v1 contracts created by this update
+		sameBlock := false                                   // some relevant v2 contract is revised and resolved by this update
+		sameBlockV1 := map[types.FileContractID]bool{}       // relevant v1 contracts revised and proven by this update
+		foldedV1 := map[types.FileContractID]bool{}          // relevant v1 contracts created by this update
+		createdResolvedV1 := map[types.FileContractID]bool{} // relevant v1 contracts created and resolved by this update
 		for i, k := 0, rng.Intn(5); i < k; i++ {
 			cid := vfBuildID(false, i+1)
 			relevant := rng.Intn(5) != 0
@@ -92,7 +93,7 @@ func TestVerifC01Build(t *testing.T) {
 			missedGE := fc.MissedHostPayout().Cmp(fc.ValidHostPayout()) >= 0
 			d := consensus.FileContractElementDiff{FileContractElement: types.FileContractElement{ID: cid, FileContract: fc}}
 			var rev *uint64
-			pick := rng.Intn(5)
+			pick := rng.Intn(6)
 			if malformed {
 				d.Created = rng.Intn(2) == 0
 				if rng.Intn(2) == 0 {
@@ -128,6 +129,28 @@ func TestVerifC01Build(t *testing.T) {
 				case 2:
 					d.Resolved, d.Valid = true, true
 					wants = append(wants, want{false, cid, "successful", 0})
+				case 5:
+					// created and resolved in the same block (consensus-valid when the formation is
+					// confirmed in the block at its window start, together with a storage proof;
+					// the missed resolution for completeness): formation, the created element's
+					// revision and the resolution must all be recorded
+					d.Created, d.Resolved = true, true
+					d.Valid = rng.Intn(3) != 0
+					wants = append(wants, want{false, cid, "confirmed", 0})
+					w := cur
+					if revert {
+						w = 0
+					}
+					wants = append(wants, want{false, cid, "revised", w})
+					if d.Valid || missedGE {
+						wants = append(wants, want{false, cid, "successful", 0})
+					} else {
+						wants = append(wants, want{false, cid, "failed", 0})
+					}
+					if relevant {
+						foldedV1[cid] = true
+						createdResolvedV1[cid] = true
+					}
 				case 4:
 					// revised and proven in the same block (consensus-valid in the block at the
 					// height of the window start): both changes must be recorded
@@ -341,6 +364,8 @@ func TestVerifC01Build(t *testing.T) {
 					sig := "state-change-missing-or-wrong"
 					if sameBlock && w.v2 {
 						sig = "same-block-revision-and-resolution-not-both-recorded"
+					} else if !w.v2 && createdResolvedV1[w.id] && (w.kind == "successful" || w.kind == "failed") {
+						sig = "same-block-v1-formation-and-resolution-not-both-recorded"
 					} else if !w.v2 && foldedV1[w.id] && w.kind == "revised" {
 						sig = "same-block-formation-and-revision-not-both-recorded"
 					} else if !w.v2 && sameBlockV1[w.id] && w.kind == "successful" {
